@@ -161,7 +161,7 @@ def run(ctx):
                 pre.append(("poke", rng.randint(0, 5), F(rng.randint(1, 3), rng.randint(1, 4))))
         run_case(ctx, ser(dict(kind="pair", label="history", A=dict(U=U, P=P, W=W), B=dict(U=U, P=P, W=W), pre=pre)))
     labels = ["refined", "elevated", "refined+elevated", "perturbed", "perturbed-refined", "scaled-weights", "const-weights",
-              "raised", "raised", "perturbed-raised",
+              "raised", "raised", "perturbed-raised", "both-refined", "both-refined",
               "unrelated", "interval", "same", "shared-weights", "shared-weights", "unrelated-rational",
               "unrelated-mixed-degree", "unrelated-mixed-degree"]
     for i in range(budget(ctx, 80, 1000)):
@@ -225,6 +225,24 @@ def run(ctx):
         if label == "unrelated":
             U2 = rand_kv(rng, pmax=2, nintmax=2, interval=(U[0], U[-1]))
             B = (U2, rand_points(rng, kv_info(U2)[1], len(P[0])), None)
+        elif label == "both-refined":
+            # two copies of one curve refined by the *same number* of new knots at different places: same degree, same number of
+            # control points, different knot vectors — the same function all the same
+            p_ = kv_info(U)[0]
+            if p_ == 0:
+                continue
+            free = [U[0] + (U[-1] - U[0]) * g for g in GRID if (U[0] + (U[-1] - U[0]) * g) not in U]
+            k_ = rng.randint(1, 2)
+            if len(free) < 2 * k_:
+                continue
+            pick = rng.sample(free, 2 * k_)
+            ca_, cb_ = make_curve(U, P, W), make_curve(U, P, W)
+            ca_.knot_insert(sorted(pick[:k_]))
+            cb_.knot_insert(sorted(pick[k_:]))
+            sa_, sb_ = curve_state(ca_), curve_state(cb_)
+            run_case(ctx, ser(dict(kind="pair", label=label, A=dict(U=list(sa_[0]), P=[list(q) for q in sa_[1]], W=None if sa_[2] is None else list(sa_[2])),
+                                   B=dict(U=list(sb_[0]), P=[list(q) for q in sb_[1]], W=None if sb_[2] is None else list(sb_[2])))))
+            continue
         elif label == "interval":
             B = ([x + 1 for x in U], P, W)
         elif label == "same":
